@@ -432,6 +432,7 @@ theorem ioMut_late (w : World) (g : Nat) (k : IOKind) (m : IOMut) : (ioMut w g k
       apply guardOp_late; intro _
       exact ioRemoveMany_late _ _ _ _ hnd hlt
   case reverse => apply guardOp_late; intro _; rfl
+  case sort keys rev => apply guardOp_late; intro _; rfl
 
 
 /-! ### initializer mapping -/
@@ -1326,6 +1327,18 @@ theorem newGraph_late (w : World) (hw : WF w) (inputs outputs nodes inits : List
 
 /-! ### every single call -/
 
+theorem withAttrs_late (r : World × Outcome) (n : Nat) (as : List (String × List Nat)) :
+    (withAttrs r n as).1.late = r.1.late := by
+  unfold withAttrs; split <;> rfl
+
+theorem setNodeName_late (w : World) (n : Nat) (s : Option String) : (setNodeName w n s).1.late = w.late := by
+  apply guardOp_late; intro _; simp only []; split <;> rfl
+
+theorem graphSort_late (w : World) (hw : WF w) (g : Nat) : (graphSort w g).1.late = w.late := by
+  unfold graphSort; split
+  · rfl
+  · exact guardOp_late _ _ _ _ (fun _ => sortApply_late _ hw _)
+
 theorem step_late (w : World) (hw : WF w) (op : Op) : (step w op).1.late = w.late := by
   cases op <;> simp only [step]
   case newValue name => exact guardOp_late _ _ _ _ (fun _ => rfl)
@@ -1347,6 +1360,15 @@ theorem step_late (w : World) (hw : WF w) (op : Op) : (step w op).1.late = w.lat
   case sortOk orders => exact guardOp_late _ _ _ _ (fun _ => sortApply_late _ hw _)
   case sortCycle => rfl
   case attrEdit => exact guardOp_late _ _ _ _ (fun _ => rfl)
+  case newNodeAttrs opType name inputs numOutputs outputs graph attrs =>
+    rw [withAttrs_late]; exact newNode_late _ hw _ _ _ _ _ _
+  case sort g => exact graphSort_late _ hw _
+  case setNodeName n s => exact setNodeName_late _ _ _
+  case setOpType n s => exact guardOp_late _ _ _ _ (fun _ => rfl)
+  case clearConst v => exact guardOp_late _ _ _ _ (fun _ => rfl)
+  case attrSet n key gs => exact guardOp_late _ _ _ _ (fun _ => rfl)
+  case attrDel n key strict => exact guardOp_late _ _ _ _ (fun _ => rfl)
+  case attrClear n => exact guardOp_late _ _ _ _ (fun _ => rfl)
 
 /-- a call that ends in `guardOp` and does not move `late` can only raise from its validation -/
 theorem guardOp_atomic_of_late (bad : Bool) (kind : String) (w w' : World) (k : String)
@@ -1362,6 +1384,37 @@ theorem guardOp_atomic_of_late (bad : Bool) (kind : String) (w w' : World) (k : 
     · rename_i hne
       simp only [hne, if_false] at h
 
+
+/-- `Node(…)` with its attribute dict: rejected only by the validation of `newNode` -/
+theorem withAttrs_atomic (bad : Bool) (kind : String) (w w' : World) (n : Nat) (as : List (String × List Nat))
+    (k : String) (h : (guardOp bad kind w w').1.late = w.late)
+    (hr : (withAttrs (guardOp bad kind w w') n as).2 = .raised k) :
+    (withAttrs (guardOp bad kind w w') n as).1 = w := by
+  cases hg : (guardOp bad kind w w').2 with
+  | ok => simp [withAttrs, hg] at hr
+  | raised k' =>
+    have e : withAttrs (guardOp bad kind w w') n as = guardOp bad kind w w' := by simp [withAttrs, hg]
+    rw [e]; exact guardOp_atomic_of_late _ _ _ _ _ h hg
+
+/-! ### `convenience.replace_all_uses_with` with the exact up-front check (proposed fix D82-exact) -/
+
+theorem rauwSeq_late (rgo : Bool) : ∀ (ps : List (Nat × Nat)) (w : World), WF w → (rauwSeq w rgo ps).1.late = w.late
+  | [], _, _ => rfl
+  | (v, r) :: rest, w, hw => by
+    unfold rauwSeq andThen
+    split
+    · rw [rauwSeq_late rgo rest _ (rauw_WF w v r rgo hw)]; exact rauw_late w hw v r rgo
+    · exact rauw_late w hw v r rgo
+
+/-- with the exact check in front the multi-pair call is all or nothing -/
+theorem rauwManyExact_atomic (w : World) (hw : WF w) (vs rs : List Nat) (rgo : Bool) (k : String)
+    (h : (rauwManyExact w vs rs rgo).2 = .raised k) : (rauwManyExact w vs rs rgo).1 = w := by
+  unfold rauwManyExact at h ⊢
+  split
+  · rfl
+  · rename_i hl
+    simp only [hl, if_false] at h
+    exact guardOp_atomic_of_late _ _ _ _ _ (guardOp_late _ _ _ _ (fun _ => rauwSeq_late rgo _ w hw)) h
 
 /-! ### `rename_values` -/
 
